@@ -5,7 +5,7 @@
 From Coq Require Import String.
 From Coq Require Reals Qreals.
 From PV Require Import Lib.Common Model.C13_Coanc Proofs.C13_Coanc Proofs.C13_Optimal Proofs.C13_Phased Proofs.C13_Cert Proofs.C13_Singular
-  Gen.C13_Kernel Proofs.C13_Kernel.
+  Gen.C13_Kernel Proofs.C13_Kernel Proofs.C13_Scale.
 Local Open Scope Q_scope.
 
 (** Molecular coancestry is twice the average identity-by-state probability of alleles drawn from the two
@@ -260,6 +260,21 @@ Theorem C13_labels_copied_partial :
 Proof. exact labels_copied_partial. Qed.
 Print Assumptions C13_labels_copied_partial.
 
+(** Scale covariance of the weighted estimator: multiplying every marker weight by t (any rational, any sign) multiplies every
+    entry by t — exactly, whatever the scale (the generators use t = 2^-40 .. 2^+20) — and a scalar weight s gives s times the
+    unweighted matrix. *)
+Theorem C13_weight_scale_covariant : forall pl m X w p t G G' i j,
+  gw_from_gmat pl m X (AArr w) p = ROk G -> gw_from_gmat pl m X (AArr (map (Qmult t) w)) p = ROk G' ->
+  (i < length X)%nat -> (j < length X)%nat -> entry G' i j == t * entry G i j.
+Proof. exact gw_weight_scale_covariant. Qed.
+Print Assumptions C13_weight_scale_covariant.
+
+Theorem C13_scalar_weight : forall pl m X p s G G1 i j,
+  gw_from_gmat pl m X (AScalar s) p = ROk G -> gw_from_gmat pl m X ANone p = ROk G1 ->
+  (i < length X)%nat -> (j < length X)%nat -> entry G i j == s * entry G1 i j.
+Proof. exact gw_scalar_weight. Qed.
+Print Assumptions C13_scalar_weight.
+
 (** Yang's scaling with square roots, as written in the source, equals over the reals the rational closed form of the model:
     (z_i / sqrt v)(z_j / sqrt v) = z_i z_j / v with v = ploidy p (1-p) > 0 (the generated radicand). *)
 Theorem C13_kernel_yang_sqrt : forall ploidy p zi zj : Q, 0 < k_yang_var ploidy p ->
@@ -283,7 +298,9 @@ Example C13_hyps_satisfiable :
   (exists G, squareN 2 G /\ symE G /\ psd_decided (1 # 1000) (1 # 2) G = Some true) /\
   (exists G, squareN 2 G /\ psd_decided (1 # 1000) 2 G = Some false) /\
   (exists G, gen_from_gmat (CYang (AScalar (1 # 4))) 2 3 [[0;1;2];[2;2;0];[1;1;1]]%Z = ROk G) /\
-  0 < k_yang_var 2 (1 # 4).
+  0 < k_yang_var 2 (1 # 4) /\
+  (exists G G', gw_from_gmat 2 3 [[0;1;2];[2;2;0];[1;1;1]]%Z (AArr [1; 1 # 2; 0]) (AScalar (1 # 2)) = ROk G /\
+     gw_from_gmat 2 3 [[0;1;2];[2;2;0];[1;1;1]]%Z (AArr (map (Qmult (1 # 1024)) [1; 1 # 2; 0])) (AScalar (1 # 2)) = ROk G').
 Proof.
   unfold alleles_ok, phases_ok, locus_ok, is01, rows_len, dosages_ok, admissible, wt_nonneg, fixed_ref, dosages_ok, estimated.
   repeat match goal with
